@@ -196,6 +196,20 @@ Theorem C13_fill_geometry_den : forall sigma rho dic fd fg key cell elt ec,
 Proof. exact fill_geometry_den. Qed.
 Print Assumptions C13_fill_geometry_den.
 
+(* the FILL loop under two pairs of inline flags runs in lock-step: same outcome
+   (same exception or both succeed), same counter, same keys / universes / FILL
+   marks in the same order, and the two tables have exactly the same models *)
+Theorem C13_fill_flags_lockstep : forall fuel fd1 fg1 fd2 fg2 dic counter,
+  (forall k, lookup k dic <> None -> k <= counter) ->
+  match fill_loop fuel fd1 fg1 dic (fill_keys dic) (dic, counter),
+        fill_loop fuel fd2 fg2 dic (fill_keys dic) (dic, counter) with
+  | Ok (d1, c1), Ok (d2, c2) => c1 = c2 /\ shape d1 = shape d2 /\ same_models d1 d2
+  | Err e1, Err e2 => e1 = e2
+  | _, _ => False
+  end.
+Proof. exact fill_flags_lockstep. Qed.
+Print Assumptions C13_fill_flags_lockstep.
+
 (* ---- all options together, over the model pipeline ---- *)
 (* The options act in two places of the pipeline, separated by the conversion of
    cell trees into volumes (C01).  (1) construct_volume_t4 from "treat FILL" to
